@@ -5,7 +5,8 @@ PROPERTY = "C16"
 
 
 def tasks(tier):
-    return contract_tasks("contracts.scheduler", "C16", tier=tier) + contract_tasks("contracts.sim_process", "C16", tier=tier)
+    return (contract_tasks("contracts.scheduler", "C16", tier=tier) + contract_tasks("contracts.sim_process", "C16", tier=tier)
+            + contract_tasks("contracts.progress", "C16", tier=tier) + lemma_tasks("contracts.progress", "C16"))
 
 
 TRUSTED_BASE = TRUSTED_CORE
